@@ -405,6 +405,25 @@ impl<R: Read> Reader<R> {
         }
     }
 
+    /// Returns the index of the file of the RPM header that this entry belongs to: a stripped entry
+    /// carries it, a cpio entry is named "." + path (plain path in source packages).
+    pub fn file_index(&self, file_entries: &[FileEntry]) -> Option<usize> {
+        match &self.entry {
+            RpmPayloadEntry::Cpio(c) => {
+                let path = match c.name.strip_prefix('.') {
+                    Some(rest) if rest.starts_with('/') => rest,
+                    _ => c.name.as_str(),
+                };
+                file_entries
+                    .iter()
+                    .position(|entry| entry.path.as_os_str() == path)
+            }
+            RpmPayloadEntry::Stripped(idx) => {
+                Some(*idx as usize).filter(|idx| *idx < file_entries.len())
+            }
+        }
+    }
+
     /// Finishes reading this entry and returns the underlying reader in a
     /// position ready to read the next entry (if any).
     pub fn finish(mut self) -> io::Result<R> {
